@@ -47,7 +47,8 @@ Definition C02_statement : Prop :=
    every step, crashes and restarts included; and a node's persistent vote, once
    cast in a term, does not change while that term lasts. *)
 Definition C08_statement : Prop :=
-  forall w l id n n',
+  forall ids boot et ld ls l id n n',
+    let w := run (init_world ids boot et ld) ls in
     get_node w id = Some n -> get_node (step w l) id = Some n' ->
     n_pterm n <= n_pterm n' /\
     (n_pterm n' = n_pterm n -> forall c, n_pvote n = Some c -> n_pvote n' = Some c).
